@@ -479,6 +479,49 @@ fn run(ctx: &mut Ctx) {
             }
         }
     }
+    // family 5: the single-value entry points used by the importers for statement cells: `Amount::try_from("<lit> X")` and
+    // `ValueExpr::try_from("<lit> X")` must read the WHOLE text: a well-formed literal with its value, anything else is an error
+    // (in particular a literal followed by left-over characters such as a trailing `-`)
+    for len in 1..=5usize {
+        let total = 6u64.pow(len as u32);
+        for k in 0..total {
+            for which in ["amount", "value-expr"] {
+                if !ctx.next_is_mine() {
+                    ctx.skip_cases(1);
+                    continue;
+                }
+                let lit = nth_string(len, k);
+                let text = format!("{} X", lit);
+                ctx.case(
+                    || format!("{}::try_from({:?})", which, text),
+                    || {
+                        if lit.starts_with("--") {
+                            return Outcome::dont_care(format!("try-from/{}/dontcare/two-leading-minus-signs", which));
+                        }
+                        let exp = reference(&lit);
+                        let got: Result<(bool, PrettyDecimal), String> = match which {
+                            "amount" => expr::Amount::try_from(text.as_str()).map(|a| (false, a.value)).map_err(|e| e.to_string()),
+                            _ => expr::ValueExpr::try_from(text.as_str()).map_err(|e| e.to_string()).and_then(|v| first_number(&v).map(|(n, p)| (n, p.clone())).ok_or_else(|| "no number".to_string())),
+                        };
+                        match (&exp, &got) {
+                            (Exp::DontCare(w), _) => Outcome::dont_care(format!("try-from/{}/dontcare/{}", which, w)),
+                            (Exp::Reject(w), Ok((n, p))) => Outcome::violation(format!("try-from/{}/accepted-malformed/{}", which, w), format!("{:?} was accepted and read as {}{}", text, if *n { "-" } else { "" }, p.value)),
+                            (Exp::Reject(w), Err(_)) => Outcome::pass(format!("try-from/{}/rejected/{}", which, w)),
+                            (Exp::Accept { .. }, Err(e)) => Outcome::violation(format!("try-from/{}/rejected-wellformed", which), format!("{:?}: {}", text, e.lines().next().unwrap_or(""))),
+                            (Exp::Accept { digits, scale, neg, .. }, Ok((n, p))) => {
+                                let eff = if *n { -p.value.mantissa() } else { p.value.mantissa() };
+                                if eff == want_mantissa(digits, *neg) && p.value.scale() == *scale {
+                                    Outcome::pass(format!("try-from/{}/accepted", which))
+                                } else {
+                                    Outcome::violation(format!("try-from/{}/value-differs", which), format!("{:?} read as {}{} (scale {})", text, if *n { "-" } else { "" }, p.value, p.value.scale()))
+                                }
+                            }
+                        }
+                    },
+                );
+            }
+        }
+    }
     // family 3: embeddings
     let emb_len = ctx.tier.pick(4usize, 5usize);
     for (pos, tmpl) in POSITIONS {
